@@ -1481,7 +1481,7 @@ class RigServer(asyncssh.SSHServer):
         return True
 
     def server_requested(self, listen_host, listen_port):
-        return True
+        return self.rig.accept_handler or True
 
     def unix_server_requested(self, listen_path):
         return True
@@ -1562,6 +1562,8 @@ class Rig:
         self.proxy_pairs: List[Any] = []
         self.procs: List[subprocess.Popen] = []
         self.extra_probe: Optional[Callable[[], Any]] = None
+        self.accept_handler: Any = None
+        self.accept_calls: List[Any] = []
         self.loop_errors: List[Any] = []
         self.loop.set_exception_handler(
             lambda loop, ctx: self.loop_errors.append(ctx))
@@ -2000,7 +2002,7 @@ async def setup_forward(rig: Rig, kind: str, bwhere,
 
     if kind == 'local_port':
         lst = await rig.must(conn.forward_local_port(
-            '127.0.0.1', 0, '127.0.0.1', bwhere), kind)
+            '127.0.0.1', 0, '127.0.0.1', bwhere, rig.accept_handler), kind)
         return lst, lst.get_port()
     if kind == 'local_path':
         path = os.path.join(tmp, 'l%s.sock' % tag)
@@ -2075,9 +2077,54 @@ async def relay_scenario(rig: Rig, case, labels) -> bool:
         rig.b_rcvbuf = 4096
         labels.add('slow-reader')
 
+    accept = case['accept'] if kind in ('local_port', 'remote_port') \
+        else 'none'
+
+    if accept != 'none':
+        # documented accept handler (callable or coroutine) deciding per
+        # originating address
+        labels.add('accept-' + accept)
+        verdict = accept in ('allow', 'coro-allow')
+
+        def handler(orig_host, orig_port):
+            rig.accept_calls.append((orig_host, orig_port))
+            return verdict
+
+        async def coro_handler(orig_host, orig_port):
+            rig.accept_calls.append((orig_host, orig_port))
+            await asyncio.sleep(0)
+            return verdict
+
+        rig.accept_handler = coro_handler if accept.startswith('coro') \
+            else handler
+
     await rig.start()
     bwhere = await rig.start_b(b_unix)
     listener, awhere = await setup_forward(rig, kind, bwhere)
+
+    if accept in ('deny', 'coro-deny'):
+        a = await open_a(rig, kind, awhere, bwhere, 'A')
+        a.write(pat(1, 0, 10))
+        await rig.expect(lambda: a.eof, 'permission',
+                         'relay:accept-denied-not-closed:' + kind,
+                         '%s: accept handler said no, the originating '
+                         'connection stays open' % kind)
+
+        for _ in range(3):
+            await rig.probe()
+
+        if rig.b_ends or rig.requests:
+            raise Violation('permission', '%s: accept handler said no, yet '
+                            'the destination was contacted (%r)' %
+                            (kind, rig.requests),
+                            'relay:accept-denied-served:' + kind)
+
+        if len(rig.accept_calls) != 1 or \
+                rig.accept_calls[0][0] != '127.0.0.1':
+            raise Violation('permission', 'accept handler calls: %r' %
+                            (rig.accept_calls,), 'relay:accept-args')
+
+        return True
 
     # a bystander connection through the same forwarding: its stream must
     # stay its own
@@ -2400,6 +2447,8 @@ def relay_strategy(tier: str):
         'pipelined': st.booleans(),
         'early': small,
         'banner': small,
+        'accept': st.sampled_from(['none', 'none', 'allow', 'coro-allow',
+                                   'deny', 'coro-deny']),
         'bystander': st.sampled_from([False, False, True]),
         'slow': st.sampled_from([False, False, True]),
         'ops': st.lists(op, max_size=6),
@@ -2482,6 +2531,17 @@ async def release_scenario(rig: Rig, case, labels) -> bool:
                              'was closed no longer relays' % kind)
             labels.add('survives-listener-close')
 
+    if case['inflight'] and pairs:
+        # the connection goes away in the middle of a transfer
+        labels.add('loss-in-flight')
+
+        for kind, a, b in pairs:
+            a.write(pat(1, a.sent, 400000))
+            b.write(pat(2, 0, 400000))
+
+        if case['inflight'] > 1:
+            await rig.probe()
+
     if end == 'close':
         rig.conn.close()
     elif end == 'abort':
@@ -2560,6 +2620,7 @@ def release_strategy(tier: str):
                               max_size=4),
         'active': st.integers(0, 2),
         'explicit': st.sampled_from([False, False, True]),
+        'inflight': st.sampled_from([0, 0, 1, 2]),
         'end': st.sampled_from(['close', 'abort', 'sabort', 'sclose',
                                 'cut']),
     })
@@ -2774,11 +2835,19 @@ async def interop_scenario(rig: Rig, case, labels) -> bool:
 
     rig.extra_probe = None
     proc.terminate()
-    deadline = rig.loop.time() + HARNESS_TIMEOUT
+    started = rig.loop.time()
+    killed = False
 
     while proc.poll() is None:
-        if rig.loop.time() > deadline:
-            raise HarnessError('C20 interop: ssh ignores SIGTERM')
+        # (OpenSSH can miss a SIGTERM that lands just before it blocks in
+        # poll; what matters here is only that the client is gone)
+        if not killed and rig.loop.time() > started + 1.0:
+            proc.kill()
+            killed = True
+
+        if rig.loop.time() > started + HARNESS_TIMEOUT:
+            raise HarnessError('C20 interop: ssh does not exit')
+
         await asyncio.sleep(0.01)
 
     # the ssh client is gone: the server releases what it opened for it
@@ -2844,18 +2913,20 @@ FAMILIES = [
                              'dynamic-port', 'cancel', 'listener-at-end',
                              'end-close', 'end-abort', 'end-cut']}),
     Family('relay', run_relay, strategy=relay_strategy,
-           budget={'quick': 400, 'thorough': 4000},
+           budget={'quick': 400, 'thorough': 3000},
            required={'all': KINDS + ['early-data', 'banner',
                                      'half-close-reverse-data', 'end-a_half',
                                      'end-b_half', 'end-a_abort',
                                      'end-b_abort', 'end-conn_close',
                                      'bystander', 'pause', 'write>pkt',
-                                     'socks-pipelined', 'flood-slow']},
+                                     'socks-pipelined', 'flood-slow',
+                                     'accept-deny', 'accept-allow']},
            case_timeout=120),
     Family('release', run_release, strategy=release_strategy,
            budget={'quick': 160, 'thorough': 2000},
            required={'all': ['rel-' + k for k in REL_KINDS] +
                      ['active', 'explicit-close', 'survives-listener-close',
+                      'loss-in-flight',
                       'end-close', 'end-abort', 'end-sabort', 'end-cut']},
            case_timeout=120),
     Family('interop', run_interop, enumerate=interop_cases,
